@@ -12,6 +12,9 @@
 
 const SutInfo* g_info = 0;
 int g_logger_mode = 0;
+int g_case_vlog = 0;
+
+static bool reports_allowed();
 volatile int g_in_sut = 0;
 uint64_t g_allocs_in_sut = 0;
 Stats g_stats;
@@ -164,7 +167,7 @@ static void observe(Node& n, Obs& o) {
 
 static int flavour_rank_ok(int flavour, int kind) {
 	switch (kind) {
-	case A_LOGGER_ATTACH: case A_LOGGER_DETACH: return g_info->f_log != 0;
+	case A_LOGGER_ATTACH: case A_LOGGER_DETACH: return g_info->f_log != 0 && !W.c->vlog;
 	case A_CANCEL: return flavour == CF_GUARD;
 	case A_CHANGE_TO: case A_CHANGE_WITH: case A_SUCCEED_SELF: case A_FAIL_SELF: case A_SUCCEED: case A_FAIL:
 		return flavour == CF_GUARD || flavour == CF_FULL;
@@ -180,7 +183,7 @@ static bool normalise_action(SutAction& a, const SutView* v) {
 	bool is_plan = a.kind >= A_PLAN_APPEND && a.kind <= A_PLAN_WALK;
 	bool is_report = a.kind >= A_SUCCEED_SELF && a.kind <= A_FAIL;
 	if ((is_plan || is_report) && !g_info->f_plans) return false;
-	if (is_report && !(g_info->defines[SUT_INVALID][M_PLAN_SUCCEEDED] && g_info->defines[SUT_INVALID][M_PLAN_FAILED])) return false;   // plan outcomes must be observable
+	if (is_report && !reports_allowed()) return false;   // plan outcomes must be observable
 	if ((a.kind == A_SUCCEED_SELF || a.kind == A_FAIL_SELF) && v->cls == SUT_INVALID) return false;
 	if (a.kind == A_CANCEL && W.activation) return false;
 	if (a.kind == A_CHANGE_WITH && g_info->payload_kind == P_VOID) { a.kind = A_CHANGE_TO; a.has_payload = 0; }
@@ -286,6 +289,13 @@ extern "C" void sim_log(int kind, int origin, int arg, const void* ctx_addr) {
 	l.pos = static_cast<uint32_t>(x.hooks.size());
 	x.logs.push_back(l);
 	g_in_sut = saved;
+}
+
+// succeed()/fail() are only issued where a plan outcome can be observed: through the root head's callbacks, or -- in a
+// verbose build whose logger stays attached for the whole execution -- through the verbose method records
+static bool reports_allowed() {
+	if (g_info->defines[SUT_INVALID][M_PLAN_SUCCEEDED] && g_info->defines[SUT_INVALID][M_PLAN_FAILED]) return true;
+	return g_info->f_verbose && W.c->vlog && W.c->logger0 && W.mode.logger_mode == 0 && W.cur && W.cur->role != ROLE_REPLICA;
 }
 
 //---------------------------------------------------------------------------------------------
@@ -410,7 +420,7 @@ static void run_simple(int idx, int kind, const Op* op, int op_index) {
 		ok = T.active; break;
 	case OP_PLAN_APPEND: case OP_PLAN_APPEND_WITH: case OP_PLAN_REMOVE_NTH: case OP_PLAN_CLEAR: case OP_PLAN_WALK:
 	case OP_SUCCEED: case OP_FAIL:
-		ok = plans && T.active && g_info->defines[SUT_INVALID][M_PLAN_SUCCEEDED] && g_info->defines[SUT_INVALID][M_PLAN_FAILED]; break;
+		ok = plans && T.active && reports_allowed(); break;
 	case OP_PLAN_FILL: ok = plans && T.active && T.mirror.empty(); break;
 	case OP_SAVE: ok = g_info->f_serial && (g_info->manual || T.active) && W.snaps.size() < MAX_SNAPS && idx == 0; break;
 	case OP_LOAD: ok = g_info->f_serial && !W.snaps.empty() && (g_info->manual || T.active) && !W.c->replicas; break;
@@ -418,7 +428,7 @@ static void run_simple(int idx, int kind, const Op* op, int op_index) {
 	case OP_EXIT: ok = g_info->manual && T.active; break;
 	case OP_REPLAY_TRANSITION: ok = g_info->f_history && T.active && !W.c->replicas; break;
 	case OPX_REPLAY_MSG: ok = g_info->f_history; break;
-	case OP_LOGGER_ATTACH: case OP_LOGGER_DETACH: ok = g_info->f_log && W.mode.logger_mode == 0; break;
+	case OP_LOGGER_ATTACH: case OP_LOGGER_DETACH: ok = g_info->f_log && W.mode.logger_mode == 0 && !W.c->vlog; break;
 	case OPX_DESTROY: ok = true; break;
 	default: ok = false; break;
 	}
@@ -553,7 +563,7 @@ RunResult execute_case(const Case& c, const ExecMode& mode) {
 		if (posix_memalign(reinterpret_cast<void**>(&W.arena), 64, W.slot_size * ARENA_SLOTS)) abort();
 	}
 	W.nodes.clear(); W.snaps.clear(); W.channel.clear();
-	W.c = &c; W.mode = mode; W.rr = &rr; W.run_nontrivial = false; g_logger_mode = mode.logger_mode;
+	W.c = &c; W.mode = mode; W.rr = &rr; W.run_nontrivial = false; g_logger_mode = mode.logger_mode; g_case_vlog = c.vlog && c.logger0 && g_info->f_verbose;
 	W.fill_kind = mode.fill_override >= 0 ? mode.fill_override : c.fill;
 	W.fill_seed = c.paint; W.next_slot_hint = static_cast<int>(c.paint % ARENA_SLOTS);
 	for (int s = 0; s < ARENA_SLOTS; ++s) { W.slot_used[s] = false; dirty_slot(s); }
@@ -703,7 +713,7 @@ EvalResult evaluate_case(const Case& c) {
 	diff_ops(r0, r1, false, "C17", "fill-independence", "behaviour depends on the prior contents of the memory the machine was constructed in", er.violations);
 	g_stats.hit("fill_differential_pairs");
 	// 2. the same case under another logger schedule
-	if (g_info->f_log) {
+	if (g_info->f_log && !c.vlog) {
 		bool any_logger = c.logger0 != 0;
 		for (size_t i = 0; i < c.ops.size(); ++i) if (c.ops[i].kind == OP_LOGGER_ATTACH) any_logger = true;
 		ExecMode m2; m2.logger_mode = any_logger ? 1 : 2;
